@@ -122,7 +122,7 @@ CHECKS = {
 
     "C21": ("vmon-cli",
             "subprocess monitor of the real CLI binary: generated P-Code projects + matching generated ELF files run through `cwe_checker --pcode-raw` (default, all-checks and random --partial selections) under a watchdog; output-well-formedness checker with an independent sort-order comparator; a few runs under valgrind memcheck",
-            "Hundreds to thousands of real CLI runs per quick tier (x86-64 projects with 2-6 functions, ~40 libc externs, loops, calls, globals; ET_EXEC/ET_DYN/ET_REL images). Held = exit 0, no panic text, JSON array, names/versions match --module-versions, canonical order, on the runs counted in the evidence. Termination is judged as bounded progress: a run stopped by the 60 s watchdog after at least 45 s of its own CPU time (normal: ~10 ms) is a violation, a starved run is inconclusive.",
+            "Hundreds to thousands of real CLI runs per quick tier (x86-64 projects with 2-6 functions, ~40 libc externs, loops, calls, globals; ET_EXEC/ET_DYN/ET_REL images). Held = exit 0, no panic text, JSON array, names/versions match --module-versions, canonical order, on the runs counted in the evidence. Termination is judged as bounded progress: a run stopped by the 60 s watchdog after at least 20 s of its own CPU time (normal: ~10 ms) is a violation, a starved run is inconclusive.",
             "generator emits what the extractor can emit (every input is first deserialised into pcode::Project as self-check); CWE125/787 and CWE415 accepted as documented variants of CWE119/CWE416",
             "DESIGN.md §3 C21"),
     "C22": ("vmon-cli",
